@@ -773,6 +773,25 @@ def _negate(test):
     return ast.copy_location(ast.UnaryOp(op=ast.Not(), operand=test), test)
 
 
+class _DeMorganIs(ast.NodeTransformer):
+    """`not (a is S and b is S)` -> `a is not S or b is not S` (identity
+    tests only: what the sentinel passes look for)"""
+
+    def visit_UnaryOp(self, node):
+        self.generic_visit(node)
+        if isinstance(node.op, ast.Not) and isinstance(
+                node.operand, ast.BoolOp) and all(
+                isinstance(v, ast.Compare) and len(v.ops) == 1
+                and isinstance(v.ops[0], (ast.Is, ast.IsNot))
+                for v in node.operand.values):
+            op = ast.Or() if isinstance(node.operand.op, ast.And) \
+                else ast.And()
+            return ast.fix_missing_locations(ast.copy_location(ast.BoolOp(
+                op=op, values=[_negate(v) for v in node.operand.values]),
+                node))
+        return node
+
+
 class Idioms(ast.NodeTransformer):
     def visit_UnaryOp(self, node):
         self.generic_visit(node)
@@ -2399,6 +2418,7 @@ def normalize_module(tree: ast.Module, extern=None) -> ast.Module:
     _inline_contextmanagers(tree)
     from . import normalize2 as n2
     n2.sentinel_gets(tree)
+    n2.sentinel_get_tests(tree)
     n2.unused_sentinel_params(tree)
     n2.unroll_reduce(tree)
     n2.inline_record_tables(tree)
@@ -2481,6 +2501,10 @@ def normalize_module(tree: ast.Module, extern=None) -> ast.Module:
             break
         # (a second round folds helpers that only became direct calls
         # after a dispatch loop was unrolled)
+    tree = _DeMorganIs().visit(tree)
+    n2.sentinel_gets(tree)
+    if n2.sentinel_get_tests(tree):
+        tree = Idioms().visit(tree)
     for n in ast.walk(tree):
         if isinstance(n, ast.FunctionDef):
             n2.incremental_dicts(n)
